@@ -4,7 +4,12 @@
 
 package abmf
 
-import "github.com/free5gc/chf/pkg/factory"
+import (
+	charging_datatype "github.com/free5gc/chf/ccs_diameter/datatype"
+	"github.com/free5gc/chf/pkg/factory"
+)
+
+var _ = charging_datatype.DIRECT_DEBITING
 
 // ghostLiveConns: Diameter connections opened by DialNetworkTLS and not yet closed (updated by the
 // assumed contracts of sm.Client.DialNetworkTLS and diam.Conn.Close)
@@ -21,4 +26,6 @@ var _ = factory.ChfConfig // the contracts below mention the configuration
 //@   requires [C18 C20] factory.ChfConfig != nil && factory.ChfConfig.Configuration != nil && factory.ChfConfig.Configuration.AbmfDiameter != nil && factory.ChfConfig.Configuration.AbmfDiameter.Tls != nil
 //@   ensures ghostLiveConns == old(ghostLiveConns)
 //@   ensures assumed GhostRequests >= old(GhostRequests)
+//@   ensures [C11 C18] (result1 == nil) == (result0 != nil)
+//@   ensures assumed [C11] result1 == nil && ccr.RequestedAction == charging_datatype.DIRECT_DEBITING && (ccr.CcRequestType == charging_datatype.INITIAL_REQUEST || ccr.CcRequestType == charging_datatype.UPDATE_REQUEST) ==> result0.MultipleServicesCreditControl != nil && result0.MultipleServicesCreditControl.GrantedServiceUnit != nil
 //@   modifies global(&GhostRequests), field(ccr, DestinationRealm), field(ccr, DestinationHost)
